@@ -247,17 +247,27 @@ def initPats (W : Nat) (sizes d : List Nat) : List Pat :=
       some ((List.range n).map fun i => if i == j then W / sizes.getD j 1 else 0)
     else none
 
-/-- The pricing loop of `_solve_cutting_stock`: `(patterns, iterations, converged)`. -/
-def csLoop (W : Nat) (sizes d : List Nat) (eps : Rat) : Nat → Nat → List Pat → List Pat × Nat × Bool
+/-- The `on_progress` callback of the harness as seen by `report_progress`: the callback is
+invoked when `progress_interval > 0` and `iteration % progress_interval == 0`, and asks to stop
+once `iteration ≥ stopAt` (`stopAt = none`: never; `interval = 0`: no callback). -/
+def progStop (interval : Nat) (stopAt : Option Nat) (it : Nat) : Bool :=
+  interval > 0 && it % interval == 0 && (match stopAt with | some k => decide (k ≤ it) | none => false)
+
+/-- The pricing loop of `_solve_cutting_stock`: `(patterns, iterations, converged)`; `stop it` is
+`report_progress(...)` at iteration `it` (a requested stop leaves the loop unconverged). -/
+def csLoop (W : Nat) (sizes d : List Nat) (eps : Rat) (stop : Nat → Bool) :
+    Nat → Nat → List Pat → List Pat × Nat × Bool
   | 0, it, pats => (pats, it, false)
   | fuel + 1, it, pats =>
+    if stop it then (pats, it, false) else
     let np := knapsackPricing sizes W (masterLP pats d eps).2.1 eps
     if np.2 ≤ 1 + eps then (pats, it, true)
-    else csLoop W sizes d eps fuel (it + 1) (if pats.contains np.1 then pats else pats ++ [np.1])
+    else csLoop W sizes d eps stop fuel (it + 1) (if pats.contains np.1 then pats else pats ++ [np.1])
 
-/-- `_solve_cutting_stock` (no progress callback). -/
-def cgCuttingStock (W : Nat) (sizes d : List Nat) (maxIter : Nat) (eps : Rat) : CgOut :=
-  let r := csLoop W sizes d eps maxIter 0 (initPats W sizes d)
+/-- `_solve_cutting_stock`. -/
+def cgCuttingStock (W : Nat) (sizes d : List Nat) (maxIter : Nat) (eps : Rat) (stop : Nat → Bool := fun _ => false) :
+    CgOut :=
+  let r := csLoop W sizes d eps stop maxIter 0 (initPats W sizes d)
   finish r.1 d eps r.2.1 r.2.2 true
 
 /-- The harness's exact pricing function over an explicit column list (props/C17.py `pricing`):
@@ -268,18 +278,21 @@ def pricingCols (cols : List Pat) (duals : List Rat) : Option Pat × Rat :=
     if rc < acc.2 - (1 : Rat) / 1000000000000 then (some c, rc) else acc) (none, 0)
 
 /-- The pricing loop of `_solve_custom` with that pricing function. -/
-def customLoop (cols : List Pat) (d : List Nat) (eps : Rat) : Nat → Nat → List Pat → List Pat × Nat × Bool
+def customLoop (cols : List Pat) (d : List Nat) (eps : Rat) (stop : Nat → Bool) :
+    Nat → Nat → List Pat → List Pat × Nat × Bool
   | 0, it, cur => (cur, it, false)
   | fuel + 1, it, cur =>
+    if stop it then (cur, it, false) else
     match pricingCols cols (masterLP cur d eps).2.1 with
     | (none, _) => (cur, it, true)
     | (some c, rc) =>
       if rc ≥ -eps then (cur, it, true)
-      else customLoop cols d eps fuel (it + 1) (if cur.contains c then cur else cur ++ [c])
+      else customLoop cols d eps stop fuel (it + 1) (if cur.contains c then cur else cur ++ [c])
 
 /-- `_solve_custom`. -/
-def cgCustom (cols init : List Pat) (d : List Nat) (maxIter : Nat) (eps : Rat) : CgOut :=
-  let r := customLoop cols d eps maxIter 0 init
+def cgCustom (cols init : List Pat) (d : List Nat) (maxIter : Nat) (eps : Rat) (stop : Nat → Bool := fun _ => false) :
+    CgOut :=
+  let r := customLoop cols d eps stop maxIter 0 init
   finish r.1 d eps r.2.1 r.2.2 false
 
 end Solvor.Cut.Mirror
